@@ -97,7 +97,6 @@ K_TRAIL, K_HIDDEN = "X04-uploaders-trailing-comma", "X04-sort-hidden-separator"
 SP, NL, CT, CTS, CM, SEP, WS, CM0 = -1, -2, -3, -4, -5, -6, -7, -10
 NEWA, NEWW, ABSENT, UNKNOWN, BADTOK = 97, 98, 96, 99999, 88888
 UNKNOWN_CM = CM0 - 9999
-KINDS = ["text", "par", "half", "neg", "const"]
 
 # ------------------------------------------------------------------ concretization
 # stems: distinct and prefix-free, so that the text order of two values is decided inside their first words and
@@ -295,16 +294,6 @@ class Conc:
             else:
                 out.append({SP: " ", WS: " ", NL: "\n", CT: "\t" if self.tab else " ", CTS: " ", SEP: ","}[c])
         return "".join(out)
-
-
-def squeeze(lay):
-    out = []
-    for t in lay:
-        t = SP if t == WS else CT if t == CTS else t
-        if t == SP and out and out[-1] == SP:
-            continue
-        out.append(t)
-    return out
 
 
 # ------------------------------------------------------------------ driving the real code
@@ -898,12 +887,7 @@ def record_trace(rng, mode, lay, nsessions, nops, stress=False, longname=False, 
             if not ex.open(s.get("idiom", 0), reopen=s.get("reopen", False)):
                 break
             for c in s["calls"]:
-                c2 = dict(c)
-                if c2["op"] == "cmt":
-                    c2["form"] = 0
-                    ex_call_scripted(ex, c2)
-                else:
-                    ex_call_scripted(ex, c2)
+                ex_call_scripted(ex, dict(c))
             ev = ex.close()
             if ev["doc"] != "ok" or ev["read"] != "ok":
                 break
